@@ -3,6 +3,7 @@
 //!
 //! usage: specs-harness world <histories-file>      (one history per line, integers)
 //! output: one line per history, the outputs of the ops separated by " | ".
+mod comps;
 mod world_exec;
 
 use std::io::{BufRead, Write};
